@@ -19,6 +19,7 @@ var registry = map[string]func() core.Engine{
 	"C15": func() core.Engine { return &C15{} },
 	"C16": func() core.Engine { return &C16{} },
 	"C17": func() core.Engine { return &C17{} },
+	"C18": func() core.Engine { return &C18{} },
 }
 
 // Lookup returns a fresh engine for the property id, or nil.
